@@ -94,6 +94,11 @@ def k_cases(tier):
     for nh in (0, 1, 3):
         for q in ('below', 'above', 'inside', 'empty'):
             out.append(dict(k='searchsorted', nh=nh, q=q))
+    # HOD passes (gen_cent, gen_sats, fast_concatenate through gen_gals): empty tables, fewer hosts than threads
+    for H, P in ((0, 0), (1, 0), (1, 2), (3, 0), (3, 5), (8, 3)):
+        for nthread in (1, 3, 8):
+            for sub in ((0,), (1,), (0, 1, 2)):
+                out.append(dict(k='hod', H=H, P=P, nthread=nthread, sub=sub, rsd=bool((H + nthread) % 2)))
     return out
 
 
@@ -366,6 +371,20 @@ def run(case):
         q = {'below': [0, 5], 'above': [1000, 10 ** 12], 'inside': [10, 15, 20, 30], 'empty': []}[case['q']]
         probs = guarded(lambda: f(hid, np.array(q, dtype=np.int64)), sig, what)
         nt_flag = case['nh'] == 0 or case['q'] != 'inside'
+    elif k == 'hod':
+        from abacusnbody.hod import GRAND_HOD as G
+        from vf.checks import c10
+        hd, pd = c10.table(case['H'], case['P'])
+        tr = c10.tracers(tuple(case['sub']))
+        if mode == 'bchk':
+            f = G.gen_gal_cat
+        else:
+            f, rt = fn(G.gen_gal_cat, mode)
+            f.__globals__['gen_gals'] = _TW[1].twin(G.gen_gals)
+            rt.reset(nthreads=case['nthread'], max_threads=64)
+        probs = guarded(lambda: f(hd, pd, tr, c10.PARAMS, Nthread=case['nthread'], enable_ranks=True, rsd=case['rsd'], nfw=False,
+                                  write_to_disk=False, verbose=False), sig, what)
+        nt_flag = case['H'] == 0 or case['P'] == 0 or case['nthread'] > case['H']
     else:
         raise ValueError(k)
     key = {x: case[x] for x in case if x not in ('env',)}
